@@ -324,26 +324,33 @@ class FnTrans:
                     ln, lt = self.job["member_calls"][key]
                     return ln, lt, None
             # this->method(args): call of another translated method, passing the member parameters along
-            obj = None      # the object the method is called on, as a Lean value of the struct type
-            if getattr(self, "tstruct", None) and mname in self.known:
-                if mbase.get("kind") == "CXXThisExpr": obj = (env["this"]["lean"], None)
+            obj = None      # the object the method is called on, as a Lean value of the callee's `this` type
+            if mname in self.known and (getattr(self, "tstruct", None) or getattr(self.known[mname], "tstruct", None)):
+                g0 = self.known[mname]
+                gthis = [p_ for p_ in g0.params if p_[0] == "this"]
+                gtype = gthis[0][2] if gthis else (g0.this_params[0][1] if g0.this_params else None)
+                if mbase.get("kind") == "CXXThisExpr":
+                    if "this" in env and env["this"]["type"] == gtype: obj = (env["this"]["lean"], None)
                 else:
                     try:
                         bt, bty, bp = self.expr(mbase, env)
-                        if bty == self.tstruct[1]: obj = (bt, bp)
+                        if bty == gtype: obj = (bt, bp)
                     except Unsupported:
                         obj = None
             if obj is not None:
                 g = self.known[mname]
                 if any(p_[0] == "this" and p_[3] == "state" for p_ in g.params):
                     raise Unsupported("%s: mutating method %s called inside an expression" % (self.name, mname))
+                has_this = any(p_[0] == "this" for p_ in g.params)
                 args, pres, j = [], [obj[1]], 0
                 for (pc, pl, pt, pk) in g.params:
                     if pc == "this": args.append(obj[0]); continue
                     t2, ty2, p2 = self.expr(inner[1 + j], env); j += 1
                     if ty2 != pt: raise Unsupported("%s: arg type %s for %s" % (self.name, ty2, mname))
                     args.append(t2); pres.append(p2)
-                args += [ln for ln, lt in g.this_params]
+                tp = [ln for ln, lt in g.this_params]
+                if not has_this: tp = [obj[0]] + tp[1:]
+                args += tp
                 call = "(%s %s)" % (mname, " ".join(args))
                 return call, g.ret_type, self.conj(*pres, "%s_pre %s" % (mname, " ".join(args)))
             if mbase.get("kind") == "CXXThisExpr" and mname in self.known:
@@ -516,20 +523,21 @@ class FnTrans:
                 # bool |= (bool expr): the rhs is promoted to int in the AST; strip the promotion
                 while rhs.get("kind") == "ImplicitCastExpr" and rhs.get("castKind") == "IntegralCast": rhs = rhs["inner"][0]
             t, ty, p = self.expr(rhs, env)
+            tf0 = self.this_field(s["inner"][0])
             if k == "CompoundAssignOperator":
                 op = s["opcode"][:-1]
-                cur = env[cn]["lean"]
+                cur = env[cn]["lean"] if tf0 is None else "%s.%s" % (env["this"]["lean"], tf0[0])
+                if tf0 is not None and tf0[1] != "Rat": raise Unsupported("%s: compound assignment to non-Rat member" % self.name)
                 if op in ("+", "-", "*", "/"): t = "(%s %s %s)" % (cur, op, t)
                 elif op == "|" and env[cn]["type"] == "Nat": t = "(%s ||| %s)" % (cur, t)
                 elif op == "&" and env[cn]["type"] == "Nat": t = "(%s &&& %s)" % (cur, t)
                 elif op == "|" and env[cn]["type"] == "Bool": t = "(%s || %s)" % (cur, t)
                 elif op == "&" and env[cn]["type"] == "Bool": t = "(%s && %s)" % (cur, t)
                 else: raise Unsupported("%s: compound op %s" % (self.name, s["opcode"]))
-                ty = env[cn]["type"]
+                ty = env[cn]["type"] if tf0 is None else tf0[1]
             tf = self.this_field(s["inner"][0])
             if tf is not None:
                 # member write: the compound-assignment operand was computed from the member, not from the struct
-                if k == "CompoundAssignOperator": raise Unsupported("%s: compound assignment to a member of struct-this" % self.name)
                 if ty != tf[1]: raise Unsupported("%s: assign %s to member of type %s" % (self.name, ty, tf[1]))
                 t = "{ %s with %s := %s }" % (env["this"]["lean"], tf[0], t)
                 ty = env["this"]["type"]
